@@ -73,6 +73,20 @@ def query_pairs(ctx, edges_file, cfg, out, stride):
                     steps.append({"l": qu, "o": {"agrees": True}})
                     o.write(json.dumps({"steps": steps}, separators=(",", ":")) + "\n")
                     n += 1
+        # query-after-query cover: on every fact store, every ordered pair of DIFFERENT plain queries (default strategy, one solution)
+        plain = [x for x in qs if not x.get("neg") and x.get("maxsol") == 1 and not x.get("copy") and x.get("strat") == "dfs" and not x.get("rete")]
+        for s1 in states:
+            if s1 not in allp[init]:
+                continue
+            for q1 in plain:
+                for q2 in plain:
+                    if q1 is q2:
+                        continue
+                    steps = [{"l": l, "o": {"ok": True}} for l in allp[init][s1]]
+                    steps.append({"l": q1, "o": {"agrees": True}})
+                    steps.append({"l": q2, "o": {"agrees": True}})
+                    o.write(json.dumps({"steps": steps}, separators=(",", ":")) + "\n")
+                    n += 1
         # interference cover: on every fact store, every aggregate query (over a pattern, and one whose pattern does not parse)
         # followed by every query
         for s1 in states:
@@ -98,7 +112,7 @@ def run(ctx):
         g = c.tlc_gen(ctx, "Backward.tla", gen, edges, cfgobj=cfg, timeout=900)
         r = c.replay(ctx, "backward", edges, walks=1500 if q else 30000, walklen=7, allhist=2 if q else 3)
         tr = ctx.path("pairs_%d.traces" % i)
-        n = query_pairs(ctx, edges, cfg, tr, 1)
+        n = query_pairs(ctx, edges, cfg, tr, 3 if q else 1)
         r2 = c.replay_traces(ctx, "backward", tr)
         c.log("  program %d: %d edges / %d states; %d graph behaviours (%d failures); %d query-pair behaviours (%d failures)" % (
             i, g["edges"], g["states"], r["behaviours"], r["failures_n"], n, r2["failures_n"]))
